@@ -3,6 +3,7 @@ package rag
 import (
 	"strings"
 	"unicode"
+	"unicode/utf8"
 )
 
 // OverlapStrategy defines how overlap between chunks is computed
@@ -146,22 +147,42 @@ func (og *OverlapGenerator) GenerateOverlap(chunkText string) *OverlapResult {
 
 // generateCharacterOverlap extracts character-based overlap from the end of text
 func (og *OverlapGenerator) generateCharacterOverlap(text string) string {
-	if len(text) <= og.config.Size {
+	return og.characterTail(text, og.config.Size)
+}
+
+// characterTail returns the last size bytes of text, shortened so that it
+// starts on a character boundary and, when PreserveWords is set, at the start
+// of a word.
+func (og *OverlapGenerator) characterTail(text string, size int) string {
+	if len(text) <= size {
 		return text
 	}
 
 	// Start from target position
-	start := len(text) - og.config.Size
+	start := len(text) - size
+
+	// Never start in the middle of a multi-byte character
+	for start < len(text) && !utf8.RuneStart(text[start]) {
+		start++
+	}
 
 	// If preserving words, find the next word boundary
 	if og.config.PreserveWords {
 		// Move forward to find start of a word
-		for start < len(text) && !unicode.IsSpace(rune(text[start])) {
-			start++
+		for start < len(text) {
+			r, n := utf8.DecodeRuneInString(text[start:])
+			if unicode.IsSpace(r) {
+				break
+			}
+			start += n
 		}
 		// Skip whitespace
-		for start < len(text) && unicode.IsSpace(rune(text[start])) {
-			start++
+		for start < len(text) {
+			r, n := utf8.DecodeRuneInString(text[start:])
+			if !unicode.IsSpace(r) {
+				break
+			}
+			start += n
 		}
 	}
 
